@@ -119,6 +119,8 @@ def cleanup_contract():
                                    "self._fatal_exception is old(self._fatal_exception) and self._expected_disconnect == old(self._expected_disconnect))"),
             ("connect-futures-released", f"implies(old({S}) is not CS.CLOSED, fut_done_or_none(old(self._start_connect_future)) and fut_done_or_none(old(self._finish_connect_future)))"),
             ("fatal-unchanged", "self._fatal_exception is old(self._fatal_exception) or old(self._fatal_exception) is None"),
+            # closing never touches the subscriptions itself; only the user's stop callback may (it is arbitrary code)
+            ("handlers-touched-only-by-user-code", "implies(ghost.stop_calls == old(ghost.stop_calls), handlers_of(self, q) == old(handlers_of(self, q)))"),
         ],
         loops={"loop#1": dict(
             index="_i",
@@ -141,6 +143,7 @@ def report_fatal_error_contract():
             P("C07", "stop-exactly-when-was-connected",
               f"ghost.stop_calls == old(ghost.stop_calls) + (1 if (old({S}) is not CS.CLOSED and old(self.is_connected) and old(self.on_stop) is not None) else 0)"),
             P("C07", "stop-reason", "implies(ghost.stop_calls > old(ghost.stop_calls), ghost.stop_arg == old(ghost.graceful))"),
+            ("handlers-touched-only-by-user-code", "implies(ghost.stop_calls == old(ghost.stop_calls), handlers_of(self, q) == old(handlers_of(self, q)))"),
         ],
         tags=["C07", "C08", "C09"],
     )
@@ -190,7 +193,8 @@ def send_messages_contract(n=1):
                                                  ("first-cause-kept", "implies(old(self._fatal_exception) is None, self._fatal_exception is exc)"),
                                                  ("stop-exactly", STOP_EXACT),
                                                  ("stop-reason", "implies(ghost.stop_calls > old(ghost.stop_calls), ghost.stop_arg == old(ghost.graceful))"),
-                                                 ("no-write-recorded", "n_writes == 0")]},
+                                                 ("no-write-recorded", "n_writes == 0"),
+                                                 ("handlers-touched-only-by-user-code", "implies(ghost.stop_calls == old(ghost.stop_calls), handlers_of(self, q) == old(handlers_of(self, q)))")]},
         },
         tags=["C02", "C08", "C09"],
     )
@@ -471,7 +475,13 @@ def complex_contract(n_types=1, n_msgs=1):
     COLL = f"coll(ghost.arrivals, {AP}, {SP}, ghost.narr)"
     reg = " and ".join(f"handler_registered(self, msg_types[{i}], on_message)" for i in range(n_types))
     unreg = " and ".join(f"not handler_registered(self, msg_types[{i}], on_message)" for i in range(n_types))
-    left_nothing = [("own:no-handler-left", f"implies(n_cuts > 0, {unreg})"),
+    left_nothing = [# a call that is refused before it ever waits (not connected, write failed) has registered nothing: stated over the handler
+                    # table and the waiter set themselves, for every message class q, since the call's locals may not exist yet
+                    ("refused-before-waiting-leaves-nothing-registered",
+                     "implies(n_cuts == 0, implies(ghost.stop_calls == old(ghost.stop_calls), handlers_of(self, q) == old(handlers_of(self, q))) and "
+                     f"(set_val(self._read_exception_futures) == old(set_val(self._read_exception_futures)) or ({S} is CS.CLOSED and set_empty(self._read_exception_futures))) "
+                     "and n_timers_armed_here == 0)"),
+                    ("own:no-handler-left", f"implies(n_cuts > 0, {unreg})"),
                     ("own:no-waiter-left", "implies(n_cuts > 0, not set_has(self._read_exception_futures, fut))"),
                     ("own:no-timer-left", "implies(n_cuts > 0, not armed(timeout_handle))")]
     exp = ", ".join(f"(proto_id(class_of(messages[{i}])), messages[{i}])" for i in range(n_msgs))
@@ -745,7 +755,11 @@ def init_frame_helper_contract():
         requires=[("socket-opened", "self._socket is not None"), ("in-finish-phase", "ghost.in_phase"),
                   # (C05/C08) a second handshake on an object that already has a helper would restart the state machine and leak the first helper
                   Clause_("no-helper-yet", "self._frame_helper is None", "property", ["C05", "C08"])],
-        cutpoints={"await#3": dict(exc_classes=["Exception"]), "await#1": {}, "await#2": {}},
+        cutpoints={"await#3": dict(exc_classes=["Exception"],
+                                   # (C09) the handshake wait ends at the documented 30 s, counted from now
+                                   check=[("handshake-deadline-is-30s-from-now",
+                                           "armed(handshake_handle) and timer_when(handshake_handle) == ghost.now + 30.0", ["C09"])]),
+                   "await#1": {}, "await#2": {}},
         ensures=[P("C05", "handshake-complete-only-from-an-open-connection", f"{S} is CS.HANDSHAKE_COMPLETE and self._frame_helper is not None")],
         raises={"Exception": {"kind": "auxiliary"}, **CANCEL},
         tags=["C05", "C08", "C09"],
